@@ -4,7 +4,8 @@ Theorems: Properties.C02.  Correspondence: every modelled transform, BOTH direct
 implementation's own forward outputs (and independently drawn in-range points), degenerate parameter atoms first
 class (all-zero, wide); outcomes incl. NaN/exception kinds must agree with the model executed in Float."""
 import torch
-from harness.common import registry as R, tcorr, oracles
+from harness.common import registry as R, tcorr, oracles, leandriver, bits
+from harness.common.splines import exc_kind
 
 PROPERTY = 'C02'
 LEVEL = 'proof'
@@ -45,6 +46,7 @@ def _correspondence_once(ctx, rep=0):
     tcorr.run_jobs(jobs)
     for j in jobs:
         tcorr.compare(ctx, j, 'C02', observables=('out', 'ld'))
+    reshape_index_maps(ctx)
     # linear family (generic, non-initial parameters), normalisation layers, permutations, squeeze, wrappers, UMNN: round trip directly
     oracles.direct_on_extras(ctx, 'C02', oracles.roundtrip_search)
 
@@ -55,3 +57,51 @@ def search(ctx):
 
 def replay_finding(ctx, f):
     return oracles.replay_transform_finding(ctx, f)
+
+
+def reshape_index_maps(ctx):
+    """SqueezeTransform (every factor 2..4, incl. shapes it must reject) and Permutation / ReversePermutation / RandomPermutation on any
+    dimension: EXACT comparison of tagged tensors with the Lean index maps, both directions, and the ValueError contracts"""
+    import nflows.transforms as T
+    reqs, metas = [], []
+    for f in (2, 3, 4):
+        t = T.SqueezeTransform(f)
+        for (B, C, H, W) in ((1, 1, f, f), (2, 2, 2 * f, 3 * f), (1, 3, f, 2 * f), (1, 1, f + 1, f), (1, 2, f, f * 2 + 1)):
+            x = torch.arange(B * C * H * W, dtype=torch.float64).reshape(B, C, H, W) + 0.5
+            try:
+                y, ld = t(x); k = 'ok'
+            except Exception as ex:
+                y, k = None, exc_kind(ex)
+            reqs.append({'op': 'squeeze', 'p': 'f64', 'i': [0, f, B, C, H, W], 'f': [bits.tensor_bits(x)]})
+            metas.append(('squeeze-fwd', f, (B, C, H, W), k, y))
+        for (B, C, H, W) in ((1, f * f, 1, 1), (2, 2 * f * f, 2, 3), (1, f * f + 1, 2, 2), (1, f, 2, 2), (1, 4, 1, 1)):
+            yv = torch.arange(B * C * H * W, dtype=torch.float64).reshape(B, C, H, W) - 3.0
+            try:
+                xb, ld = t.inverse(yv); k = 'ok'
+            except Exception as ex:
+                xb, k = None, exc_kind(ex)
+            reqs.append({'op': 'squeeze', 'p': 'f64', 'i': [1, f, B, C, H, W], 'f': [bits.tensor_bits(yv)]})
+            metas.append(('squeeze-inv', f, (B, C, H, W), k, xb))
+    g = torch.Generator().manual_seed(ctx.seed + 5)
+    for shape, dim in (((2, 5), 1), ((2, 3, 4), 2), ((1, 4, 2, 3), 1), ((2, 3, 2, 2), 3), ((3, 6), 1)):
+        n = shape[dim]
+        for name, perm in (('rand', torch.randperm(n, generator=g)), ('rev', torch.arange(n - 1, -1, -1))):
+            t = T.Permutation(perm, dim=dim)
+            x = torch.arange(int(torch.tensor(shape).prod()), dtype=torch.float64).reshape(shape)
+            for inverse in (False, True):
+                try:
+                    y, ld = (t.inverse(x) if inverse else t(x)); k = 'ok'
+                except Exception as ex:
+                    y, k = None, exc_kind(ex)
+                reqs.append({'op': 'permute', 'p': 'f64', 'i': [int(inverse), dim, len(shape)] + list(shape) + perm.tolist(), 'f': [bits.tensor_bits(x)]})
+                metas.append(('permute-' + name, dim, shape, k, y))
+    for (kind, a, shp, k, y), resp in zip(metas, leandriver.call(reqs)):
+        merr = resp.get('e')
+        case = {'op': kind, 'arg': a, 'shape': list(shp)}
+        ctx.case(key=(kind, a, tuple(shp)), branch='index-map/' + kind + ('/error' if k != 'ok' else ''), nontrivial=True, n=1)
+        if k != 'ok' or merr:
+            if (k if k != 'ok' else None) != merr:
+                ctx.disagree('C02/' + kind, case, k, merr or 'ok', 'outcome kinds differ')
+            continue
+        if bits.tensor_bits(y.contiguous()) != resp['f'][0]:
+            ctx.disagree('C02/' + kind, case, y.reshape(-1).tolist()[:12], bits.dec(resp['f'][0][:12], 'f64'), 'index map differs from the model')
